@@ -154,6 +154,8 @@ func (e *ThenExpression) Execute(dataContext IDataContext, memory *WorkingMemory
 		return err
 	}
 	if e.ExpressionAtom != nil {
+		// an action is carried out on every firing, whatever the working memory remembers of an earlier one
+		e.ExpressionAtom.Evaluated = false
 		_, err := e.ExpressionAtom.Evaluate(dataContext, memory)
 		if err != nil {
 			AstLog.Errorf("error while executing expression %s. got %s", e.ExpressionAtom.GrlText, err.Error())
